@@ -67,13 +67,21 @@ def names(prefix, *dims):
     return [prefix + '_'.join(str(i) for i in idx) for idx in itertools.product(*[range(d) for d in dims])]
 
 
+def clist(items):
+    """Coq list; singletons as (x :: nil): with Nsatz loaded `[x]` is taken for another notation"""
+    items = list(items)
+    if len(items) == 1:
+        return '(%s :: nil)' % items[0]
+    return '[%s]' % '; '.join(items)
+
+
 def vec_of(prefix, n):
-    return '(vec_of [%s])' % '; '.join(names(prefix, n))
+    return '(vec_of %s)' % clist(names(prefix, n))
 
 
 def mat_of(prefix, n, m):
-    rows = ['[%s]' % '; '.join('%s%d_%d' % (prefix, i, j) for j in range(m)) for i in range(n)]
-    return '(mat_of [%s])' % '; '.join(rows)
+    rows = [clist('%s%d_%d' % (prefix, i, j) for j in range(m)) for i in range(n)]
+    return '(mat_of %s)' % clist(rows)
 
 
 class Obl(object):
@@ -92,11 +100,10 @@ class Obl(object):
         return '(%s %s)' % (nm, self.P) if self.P else nm
 
     def dvec(self, group, n):
-        return '(vec_of [%s])' % '; '.join(self.d(group, i) for i in range(n))
+        return '(vec_of %s)' % clist(self.d(group, i) for i in range(n))
 
     def dmat(self, group, n, m):
-        return '(mat_of [%s])' % '; '.join(
-            '[%s]' % '; '.join(self.d(group, i, j) for j in range(m)) for i in range(n))
+        return '(mat_of %s)' % clist(clist(self.d(group, i, j) for j in range(m)) for i in range(n))
 
     def path(self):
         return '(%s_path %s)' % (self.kern, self.P) if self.P else '%s_path' % self.kern
@@ -611,8 +618,9 @@ def main(argv):
                 f.write(OBL_HEADER % (name, name))
                 for lname, stmt, proof in o.lemmas:
                     f.write('\nLemma %s :\n  %s.\n%s\n' % (lname, stmt, proof))
-                for lname, _, _ in o.lemmas:
-                    f.write('Print Assumptions %s.\n' % lname)
+                # one Print Assumptions for all lemmas of the kernel (their union)
+                f.write('\nDefinition C16_%s_all := (%s).\n' % (name, ', '.join(['I'] + [l[0] for l in o.lemmas])))
+                f.write('Print Assumptions C16_%s_all.\n' % name)
             env = tr.env()
             memo = {}
             entry.update({
